@@ -17,6 +17,7 @@ import (
 	"strconv"
 	"strings"
 	"sync"
+	"time"
 
 	"github.com/folbricht/desync"
 )
@@ -511,6 +512,169 @@ func runC16(cfg Config) {
 						break
 					}
 				}
+			}
+		}
+	}
+	// Verify against the model (Model/LocalVerify.lean): stores with real chunk files — valid, damaged (a flipped byte, cut,
+	// emptied, another chunk's content), of both formats, misplaced copies, upper-case names, junk — verified with and
+	// without repair by 1..8 workers: the report lines and the files left afterwards must be the model's
+	for it := 0; it < cfg.N(120, 3000); it++ {
+		unc := rng.Intn(2) == 1
+		repair := rng.Intn(3) != 0
+		root := filepath.Join(cfg.Work, "verify-store")
+		os.RemoveAll(root)
+		os.MkdirAll(root, 0755)
+		own, _ := desync.NewLocalStore(root, desync.StoreOptions{Uncompressed: unc})
+		other, _ := desync.NewLocalStore(root, desync.StoreOptions{Uncompressed: !unc})
+		ownExt, otherExt := ".cacnk", ""
+		if unc {
+			ownExt, otherExt = "", ".cacnk"
+		}
+		valid := map[string]bool{} // relative path -> the content is what GetChunk accepts for the ID the name spells
+		nf := rng.Intn(9)
+		for k := 0; k < nf; k++ {
+			data := randBytes(rng, 20+rng.Intn(300))
+			c := desync.NewChunk(data)
+			id := c.ID()
+			sid := id.String()
+			canon := filepath.Join(sid[:4], sid+ownExt)
+			damage := func(rel string) {
+				p := filepath.Join(root, rel)
+				b, _ := os.ReadFile(p)
+				switch rng.Intn(4) {
+				case 0:
+					b[rng.Intn(len(b))] ^= 1 << uint(rng.Intn(8))
+				case 1:
+					b = b[:rng.Intn(len(b))]
+				case 2:
+					b = nil
+				default:
+					o := desync.NewChunk(randBytes(rng, 50))
+					tmp := filepath.Join(cfg.Work, "verify-tmp")
+					os.RemoveAll(tmp)
+					os.MkdirAll(tmp, 0755)
+					ts, _ := desync.NewLocalStore(tmp, desync.StoreOptions{Uncompressed: unc})
+					ts.StoreChunk(o)
+					oid := o.ID()
+					b, _ = os.ReadFile(filepath.Join(tmp, oid.String()[:4], oid.String()+ownExt))
+				}
+				os.WriteFile(p, b, 0644)
+			}
+			switch rng.Intn(8) {
+			case 0, 1, 2:
+				own.StoreChunk(c)
+				valid[canon] = true
+			case 3, 4:
+				own.StoreChunk(c)
+				damage(canon)
+				valid[canon] = false
+			case 5: // the other format, valid or damaged: none of this store's business
+				other.StoreChunk(c)
+				if rng.Intn(2) == 0 {
+					p := filepath.Join(root, sid[:4], sid+otherExt)
+					os.WriteFile(p, []byte("damaged"), 0644)
+				}
+			case 6: // a copy of a chunk file in a wrong directory, with or without the canonical one
+				own.StoreChunk(c)
+				b, _ := os.ReadFile(filepath.Join(root, canon))
+				os.MkdirAll(filepath.Join(root, "zzzz"), 0755)
+				os.WriteFile(filepath.Join(root, "zzzz", sid+ownExt), b, 0644)
+				valid[canon] = true
+				switch rng.Intn(3) {
+				case 0:
+					os.Remove(filepath.Join(root, canon))
+					delete(valid, canon)
+				case 1:
+					damage(canon)
+					valid[canon] = false
+				}
+			default:
+				os.MkdirAll(filepath.Join(root, sid[:4]), 0755)
+				os.WriteFile(filepath.Join(root, sid[:4], []string{"README", ".tmp-cacnk123", sid[:60] + ownExt, strings.ToUpper(sid) + ownExt}[rng.Intn(4)]), []byte("junk"), 0644)
+			}
+		}
+		var files []string
+		for _, f := range listStore(root) {
+			pp := strings.Split(f, "/")
+			rel := filepath.Join(string(unhx(pp[0])), string(unhx(pp[1])))
+			v := "0"
+			if valid[rel] {
+				v = "1"
+			}
+			files = append(files, f+"/"+v)
+		}
+		line := fmt.Sprintf("verify.run unc=%d repair=%d files=%s", b2i(unc), b2i(repair), strings.Join(files, ";"))
+		workers := 1 + rng.Intn(8)
+		var vout bytes.Buffer
+		var lw lockedWriter
+		lw.w = &vout
+		done := make(chan error, 1)
+		go func() { done <- own.Verify(context.Background(), workers, repair, &lw) }()
+		var verr error
+		select {
+		case verr = <-done:
+		case <-time.After(30 * time.Second):
+			monitor("Verify did not return", line, "")
+			continue
+		}
+		var ls []string
+		for _, l := range strings.Split(strings.TrimSpace(vout.String()), "\n") {
+			switch {
+			case l == "":
+			case strings.Contains(l, "does not match its hash"):
+				f := strings.Fields(l)
+				r := ""
+				if strings.HasSuffix(l, ": removed") {
+					r = ":removed"
+				}
+				ls = append(ls, "i:"+f[2]+r)
+			default:
+				// "chunk <id> missing from store" and the like
+				id := ""
+				for _, w := range strings.Fields(l) {
+					if len(w) == 64 {
+						id = w
+					}
+				}
+				ls = append(ls, "e:"+id)
+			}
+		}
+		sort.Strings(ls)
+		left := listStore(root)
+		sort.Strings(left)
+		got := "files=" + strings.Join(left, ";") + " lines=" + strings.Join(ls, ",")
+		if verr != nil {
+			got = "error " + verr.Error()
+		}
+		rep.Count(line, len(files) >= 3, "verify.run", fmt.Sprintf("verify-repair:%v", repair), fmt.Sprintf("verify-lines:%s", bucket(len(ls))))
+		if m.cmd != nil {
+			// an ID that is met twice (its canonical file and a copy in a wrong directory) is looked at twice; once one
+			// look has removed the damaged canonical file, what the other look reports depends on which worker came
+			// first ("missing", or "invalid" with a failed removal): those second lines are not compared
+			canon := func(res string) string {
+				parts := strings.SplitN(res, " lines=", 2)
+				if len(parts) != 2 || parts[1] == "" {
+					return res
+				}
+				removed := map[string]bool{}
+				for _, l := range strings.Split(parts[1], ",") {
+					if f := strings.Split(l, ":"); len(f) == 3 && f[2] == "removed" {
+						removed[f[1]] = true
+					}
+				}
+				var keep []string
+				for _, l := range strings.Split(parts[1], ",") {
+					f := strings.Split(l, ":")
+					if len(f) >= 2 && removed[f[1]] && !(len(f) == 3 && f[2] == "removed") {
+						continue
+					}
+					keep = append(keep, l)
+				}
+				return parts[0] + " lines=" + strings.Join(keep, ",")
+			}
+			if want := m.Ask(line); canon(want) != canon(got) {
+				rep.Disagree(Disagreement{Kind: "correspondence", Case: clip(line, 100000), Model: clip(want, 1500), Impl: clip(got, 1500),
+					What: "model and implementation differ (verify: report lines or files left)"})
 			}
 		}
 	}
@@ -1058,4 +1222,16 @@ func rfc8878Frame(data []byte, windowLog int, rng *rand.Rand) []byte {
 			return out
 		}
 	}
+}
+
+// lockedWriter serialises the report lines of Verify's workers
+type lockedWriter struct {
+	mu sync.Mutex
+	w  io.Writer
+}
+
+func (l *lockedWriter) Write(p []byte) (int, error) {
+	l.mu.Lock()
+	defer l.mu.Unlock()
+	return l.w.Write(p)
 }
